@@ -548,7 +548,11 @@ pub fn run_unit(prop: &str, mode: &str, seed: u64, unit: u64, world_arg: Option<
         if acc.failure.is_some() {
             return;
         }
+        // magnitude members are too heavy to re-execute once per fault point: the sizes/sizesf
+        // modes cover faults at magnitude
+        let heavy = base.ops.iter().any(|o| matches!(o, Op::Bulk { .. }));
         match mode {
+            _ if heavy => {}
             "crash" => {
                 // F8 at every prefix of the history
                 for c in 0..=base.ops.len() as u32 {
